@@ -28,6 +28,9 @@ pub struct Case {
     /// offset at this pinned Unix time is `off` (and differs at most other times)
     #[serde(default)]
     pub local_now: i64,
+    /// 0 = the ambient zone is a plain table; 1..3 = it carries footer rules (J, zero-based, M)
+    #[serde(default)]
+    pub rules: u8,
 }
 
 const SETTERS: [&str; 10] = ["set_year", "set_month", "set_day", "set_day_of_year", "set_hour", "set_minute", "set_second", "set_milli", "set_micro", "set_nano"];
@@ -130,6 +133,21 @@ impl Prop for SetClear {
             i.ns = if off > 0 { 86_400_000_000_000 - 1 - within } else { within };
             i.ns = i.ns.clamp(0, 86_399_999_999_999);
         }
+        let mut local_now = if !date && u.coin(1, 6)? { u.range_i64(-1_900_000_000, 2_100_000_000)? } else { 0 };
+        let mut rules = 0u8;
+        if local_now != 0 && !edge && u.coin(1, 2)? {
+            // the ambient zone carries rules (built from the operation's own numbers, see check);
+            // two times in three the receiver and the clock stand in the same year
+            rules = 1 + u.below(3)? as u8;
+            if u.coin(2, 3)? {
+                let mut yr = 1971 + u.below(66)? as i64;
+                if u.coin(1, 2)? {
+                    yr = (yr - yr.rem_euclid(4)).max(1972);
+                }
+                i.day = cal::days_from_ymd(yr, 1, 1) + u.below(cal::year_len(yr) as u64)? as i64;
+                local_now = (cal::days_from_ymd(yr, 1 + u.below(12)? as u32, 1 + u.below(28)? as u32) - cal::DAYS_TO_1970) * 86_400 + u.below(86_400)? as i64;
+            }
+        }
         let local = i.i() + off as i128 * tl::NS;
         let f = tl::fields(local);
         let op = if u.coin(2, 3)? {
@@ -166,8 +184,7 @@ impl Prop for SetClear {
         } else {
             Op::Clear { until: if date { u.below(3)? as u8 } else { u.below(9)? as u8 } }
         };
-        let local_now = if !date && u.coin(1, 6)? { u.range_i64(-1_900_000_000, 2_100_000_000)? } else { 0 };
-        Ok(Case { i, off, op, date, local_now })
+        Ok(Case { i, off, op, date, local_now, rules })
     }
     fn check(c: &Case, cx: &mut Cx) -> Verdict {
         if !c.i.valid() || c.off.unsigned_abs() > 86_399 || (c.date && c.off != 0) {
@@ -271,7 +288,27 @@ impl Prop for SetClear {
             let use_local = c.local_now != 0 && local_now_ok(c.local_now) && utc.div_euclid(tl::DAY_NS) > (cal::MIN_DAY + 3) as i128 && utc.div_euclid(tl::DAY_NS) < (cal::MAX_DAY - 3) as i128;
             if use_local {
                 cx.nt("offset_carried_as_Offset::Local");
-                pin_local(c.off, c.local_now);
+                if c.rules != 0 {
+                    // rule days and months taken from the operation and the receiver
+                    let lf = tl::fields(local);
+                    let cur_doy = cal::day_of_year(lf.day) as i64;
+                    let arg = match &c.op {
+                        Op::Set { v, .. } => *v,
+                        Op::Clear { until } => cur_doy + *until as i64,
+                    };
+                    let a = (arg - 1).rem_euclid(365) + 1;
+                    let b = if (cur_doy - 1).rem_euclid(365) + 1 != a { (cur_doy - 1).rem_euclid(365) + 1 } else { (a + 99) % 365 + 1 };
+                    let text = match c.rules {
+                        1 => format!("J{},J{}/3", a, b),
+                        2 => format!("{},{}/1:30", a - 1, b - 1),
+                        _ => format!("M{}.{}.{},M{}.{}.{}/3", (arg - 1).rem_euclid(12) + 1, arg.rem_euclid(5) + 1, arg.rem_euclid(7), lf.month % 12 + 1, lf.dom % 5 + 1, lf.dom % 7),
+                    };
+                    if pin_local_rules(c.off, c.local_now, &text) {
+                        cx.nt("ambient_zone_with_rules_built_from_the_case's_numbers");
+                    }
+                } else {
+                    pin_local(c.off, c.local_now);
+                }
             }
             let d0: DateTime = match catch(|| if use_local { mk_dt_off_any(utc, 0).set_offset(Offset::Local) } else { mk_dt_off_any(utc, c.off) }) {
                 Ok(d) => d,
